@@ -124,21 +124,25 @@ def body(run):
                 src[b, r0:r0 + rng.randint(2, 8), c0:c0 + rng.randint(2, 8)] = -9999.0
         pair = fz.make_pair(run.work, g, rng, bands=2, src=src, tag='m', src_kw=dict(encoding='nodata', nodata=-9999.0))
         try:
-            mbm, _nb = fz.pick_block_mem(pair['src_fn'], pair['ref_fn'], 'auto', rng.choice([6, 9, 16]), (3, 3))
+            mbm, _nb = fz.pick_block_mem(pair['src_fn'], pair['ref_fn'], 'auto', rng.choice([6, 9, 16]), (3, 3) if mi % 2 == 0 else (5, 5))
             kw = dict(model='gain', kernel_shape=(3, 3), proc_crs='auto', max_block_mem=mbm, param=False, out_profile=dict(nodata=None))
+            if mi % 2 == 1:
+                # ... and with partial masking: the coverage mask of a block belongs to THAT block's band (anything a model object keeps between
+                # fit and apply is shared by all blocks in flight)
+                kw = dict(model='gain', kernel_shape=(3, 3), proc_crs='auto', max_block_mem=mbm, param=False, model_config=dict(mask_partial=True))
             base = fz.fuse(pair['src_fn'], pair['ref_fn'], run.work / 'mbase.tif', threads=1, **kw)
         except Exception as ex:
             dist['skipped:' + type(ex).__name__] = dist.get('skipped:' + type(ex).__name__, 0) + 1
             continue
         bd = ic.digest(base)
-        for si in range(nsched + 2):
+        for si in range(nsched + 3):
             threads = rng.choice([2, 3, 4])
             seed = rng.randrange(10 ** 9)
             # the first two schedules take the tasks in reverse / shuffled submission order (every block of band 2 before band 1's), the others in
             # submission order with random switches: completion order is not promised by the executor
-            order = ('lifo', 'shuffle')[si] if si < 2 else 'fifo'
+            order = ('lifo', 'shuffle', 'by-window')[si] if si < 3 else 'fifo'       # (by-window: the two bands' blocks of one window side by side)
             r = ic.run_fuse(pair, run.work / 'msched.tif', rng=random.Random(seed), threads=threads, task_order=order, **kw)
-            desc = dict(geom=g.describe(), bands=2, per_band_nodata_holes=True, out_profile=dict(nodata=None), model='gain', kernel_shape=[3, 3],
+            desc = dict(geom=g.describe(), bands=2, per_band_nodata_holes=True, out_profile=kw.get('out_profile'), model_config=kw.get('model_config'), model='gain', kernel_shape=[3, 3],
                         max_block_mem=mbm, threads=threads, schedule_seed=seed, task_order=order)
             dist['fuse/2-band internal mask'] = dist.get('fuse/2-band internal mask', 0) + 1
             run.count_case(('fuse-mask', mi, seed, threads), True, None)
